@@ -641,6 +641,7 @@ static void caseUnscaled(vh::Reporter& rep, long idx, Rng& rng, int grid) {
     }
     rep.count("comparisons", cx.comparisons);
     rep.count("comparisons_unscaled", cx.comparisons);
+    if (!(ok && cx.comparisons >= 500)) rep.count("trivial_unscaled");
     rep.case_done(vh::fnv(d1), ok && cx.comparisons >= 500);
     if (idx < 3) rep.sample("class unscaled, family II deck of case " + std::to_string(idx) + ":\n" + d2, 3, 2500);
     cx.flush();
@@ -860,6 +861,7 @@ static void caseEps(vh::Reporter& rep, long idx, Rng& rng, int grid) {
     }
     rep.count("comparisons", cx.comparisons);
     rep.count("comparisons_eps", cx.comparisons);
+    if (!(ok && cx.comparisons >= 50)) rep.count("trivial_eps");
     rep.case_done(vh::fnv(dE), ok && cx.comparisons >= 50);
     if (idx < 8) rep.sample("class eps, deck of case " + std::to_string(idx) + ":\n" + dE, 3, 2500);
     cx.flush();
@@ -1077,6 +1079,7 @@ static void caseHyst(vh::Reporter& rep, long idx, Rng& rng, int steps, bool allo
     rep.count("history_steps", nsteps);
     rep.count("comparisons", cx.comparisons);
     rep.count("comparisons_hyst", cx.comparisons);
+    if (!(ok && nsteps >= steps)) rep.count("trivial_hyst");
     rep.case_done(vh::fnv(dH), ok && nsteps >= steps);
     if (idx < 10) rep.sample("class hyst, deck of case " + std::to_string(idx) + ":\n" + dH + firstHist, 3, 3500);
     cx.flush();
